@@ -580,6 +580,21 @@ class Translator:
             stmts += self.implicit_member_dtors(prid)
         temps = self.blockstack.pop()
         f.body = temps + stmts
+        if self.opts.get("param_lifetime"):
+            # a by-value parameter of class type is an object of the callee's frame: copy it into a block-scoped local, so that the
+            # verifier ends its lifetime when the function returns (CBMC does not mark parameters dead) and a reference that
+            # outlives the call is a dereference of a dead object
+            ren, pre = [], []
+            for (pn, pt) in f.params:
+                if pt.kind == "rec" and pn != "self":
+                    ren.append((pn + "__in", pt))
+                    pre.append(X("decl", pt, pn, X("var", pn + "__in", ty=pt)))
+                    self.rule("by-value parameter -> frame-local object")
+                else:
+                    ren.append((pn, pt))
+            if pre:
+                f.params = ren
+                f.body = [X("block", pre + f.body)]
         return f
 
     def flush_temp_dtors(self):
